@@ -216,7 +216,9 @@ theorem tupItems_pres (hR : StRel R) : ∀ (args : List (EvalM Val)), PArgs R ar
     intro v
     split
     · exact Pres.rerr hR _
-    · exact ih (fun x hx => h x (by simp [hx])) _
+    · split   -- C09: run-time refusal of a tuple / table item (4db32b5)
+      · exact Pres.rerr hR _
+      · exact ih (fun x hx => h x (by simp [hx])) _
 
 theorem substrLike_pres (hR : StRel R) a b c d (args : List (EvalM Val)) (h : PArgs R args) :
     Pres R (substrLike (m := EvalM) a b c d args) := by
